@@ -53,6 +53,19 @@ def histories(tier: str) -> List[Tuple[str, ...]]:
     reps = V.REPS + V.D1_REPS + ["Base()", "Derived2()", "MyDict(a=0)", "Base", "{'a': Derived()}", "[{'a': Derived()}]", "{'a': [Base()]}", "defaultdict(int, {'a': {'b': 0}})"]
     hs: List[Tuple[str, ...]] = [(e,) for e in d1]
     hs += list(itertools.combinations(reps, 2))
+    # long histories: more observed shapes at one position than RewriteLargeUnion keeps
+    hs += [
+        ("(0,)", "(0, 0)", "(0, 0, 0)", "('a',)", "('a', 'a')", "('a', 'a', 'a')"),
+        ("(0,)", "(0, 0)", "(0, 0, 0)", "(0, 0, 0, 0)", "(0, 0, 0, 0, 0)", "(0, 0, 0, 0, 0, 0)", "()"),
+        ("0", "'a'", "1.5", "b'x'", "None", "Base()", "Other()"),
+        ("Base()", "Derived()", "Derived2()", "Multi()", "Outer.Inner()", "Other()"),
+        ("Derived()", "Derived2()", "Multi()", "Base()", "True", "0"),
+        ("[0]", "['a']", "[1.5]", "[None]", "[Base()]", "[[0]]", "[]"),
+        ("{'a': 0}", "{'b': 0}", "{'c': 0}", "{'d': 0}", "{'e': 0}", "{'f': 0}"),
+        ("{1: 0}", "{'a': 0}", "{1.5: 0}", "{None: 0}", "{(0,): 0}", "{b'x': 0}"),
+        ("0", "[0]", "(0,)", "{0}", "{'a': 0}", "defaultdict(int)", "len", "int"),
+        ("None", "[]", "()", "set()", "{}", "defaultdict(int)"),
+    ]
     if tier == "thorough":
         hs += [(e,) for e in V.depth2(quick=True)]
         hs += list(itertools.combinations(reps[::2], 3))
@@ -284,6 +297,38 @@ def run_module(res: Result, ctx: Ctx, mi: int, hs: List[Tuple[str, ...]], srcdir
                 res.oblige(f"flag:{fi_}", True)
                 if res.states % 401 == 1:
                     res.sample({"module": mi, "k": k, "rewriter": rname, "flag": flag, "stub_head": out.getvalue()[:300]})
+    # every function alone (`stub module:qualname`): nothing else in the stub can supply a missing import or class
+    if only is None or only[2] == -1:
+        k = 3
+        db = str(srcdir / f"{modname}_{k}.sqlite3")
+        mcfg.reset(db=db, k=k, filter=lambda code: code.co_filename in files)
+        observed = {}
+        if not os.path.exists(db):
+            with monkeytype.trace(mcfg.CONFIG):
+                drive(M, metas, observed)
+        else:
+            mcfg.reset(db=str(srcdir / "discard.sqlite3"), k=k, filter=lambda code: False)
+            drive(M, metas, observed)
+            mcfg.reset(db=db, k=k, filter=lambda code: code.co_filename in files)
+        for m in metas:
+            qual = ("K." if m["kind"] in ("method", "classmethod") else "") + m["fn"]
+            out, err = io.StringIO(), io.StringIO()
+            res.states += 1
+            case = {"module": mi, "k": k, "rewriter": "DEFAULT", "flag": -1, "tier": ctx.tier, "fn": m["fn"]}
+            try:
+                rc = cli.main(["-c", "mcfg:CONFIG", "stub", f"{modname}:{qual}"], out, err)
+            except BaseException as e:  # noqa: BLE001
+                res.violate(Violation(ID, "exception", "single-function-stub", case, f"stub {qual} raised {e!r}"))
+                continue
+            res.evaluations += 1
+            res.validated += 1
+            res.transitions += 3
+            if rc != 0 or not out.getvalue().strip():
+                res.violate(Violation(ID, "exception", "stub-failed", case, f"single-function stub rc={rc} stderr={err.getvalue()[-200:]}"))
+                continue
+            for kind, sig, fn, msg in judge_stub(out.getvalue(), M, [m], observed, [])[:2]:
+                res.violate(Violation(ID, kind, sig if sig.startswith("typed-dict") else "single:" + sig, case, "alone in its stub: " + msg))
+        res.oblige("single-function-stubs", True)
     del sys.modules[modname]
 
 
@@ -311,6 +356,7 @@ def run(ctx: Ctx) -> Result:
         res.obligations.setdefault(f"rewriter:{rname}", False)
     for i in range(len(FLAGS)):
         res.obligations.setdefault(f"flag:{i}", False)
+    res.obligations.setdefault("single-function-stubs", False)
     res.bounds.update({"histories": sum(len(m) for m in ms), "modules": len(ms), "k": KS, "rewriters": 7, "flags": 4})
     return res
 
